@@ -129,7 +129,30 @@ func buildOverlay(module, scratch string, extra map[string]string) (map[string]s
 		ov[filepath.Join(mdir, rel)] = vreal
 	}
 	// instrumented copies of the current source: import "sync" -> zzsync
+	// (an entry ending in "/" stands for every non-test Go file of that
+	// directory that imports "sync")
+	var instr []string
 	for _, rel := range instrumentFiles {
+		if !strings.HasSuffix(rel, "/") {
+			instr = append(instr, rel)
+			continue
+		}
+		ents, err := os.ReadDir(filepath.Join(mdir, rel))
+		if err != nil {
+			continue // the other module generation may lack the directory
+		}
+		for _, e := range ents {
+			n := e.Name()
+			if e.IsDir() || !strings.HasSuffix(n, ".go") || strings.HasSuffix(n, "_test.go") {
+				continue
+			}
+			b, err := os.ReadFile(filepath.Join(mdir, rel, n))
+			if err == nil && syncImportRe.Match(b) {
+				instr = append(instr, rel+n)
+			}
+		}
+	}
+	for _, rel := range instr {
 		src, err := os.ReadFile(filepath.Join(mdir, rel))
 		if err != nil {
 			return nil, nil, fmt.Errorf("instrument %s: %v", rel, err)
